@@ -150,6 +150,19 @@ func main() {
 		sim.SiteNames = siteNames[:]
 		rc := &runCtx{prop: *prop, lane: *lane, b: b, prog: prog, sim: sim, probes: &probes, tally: tally}
 		racesBefore := simrt.RaceErrors()
+		simrt.FatalHook = func(msg string) {
+			// The run cannot be completed (e.g. a lock left held by an operation
+			// that panicked). If the race detector already reported races in
+			// this run, that is the finding, not an infrastructure failure.
+			if n := simrt.RaceErrors() - racesBefore; n > 0 {
+				emit(doneLine{T: "done", Run: run, Cfg: rc.cfg, Sig: fmt.Sprintf("%016x", sim.Sig),
+					Viol: &Violation{Class: "data-race", Detail: fmt.Sprintf("the race detector reported %d data race(s) between simulated tasks in this run; afterwards the run could not be completed: %s", n, msg)},
+					Tape: &simrt.Tape{Program: prog.Out(), Schedule: sched.Out(), ProgramSpans: prog.Spans()}})
+				out.Flush()
+				os.Exit(0)
+			}
+			out.Flush()
+		}
 		simrt.Begin(sim)
 		r := elemTypes[prog.Draw(len(elemTypes))]
 		tally("type", r.Name())
@@ -163,6 +176,11 @@ func main() {
 		}
 		simrt.End()
 		viol.render()
+		if sim.Deadlocked != "" && viol == nil {
+			out.Flush()
+			fmt.Fprintln(os.Stderr, sim.Deadlocked)
+			os.Exit(2)
+		}
 		orphans = sim.Orphans()
 		if n := simrt.RaceErrors() - racesBefore; n > 0 {
 			// The report text is on stderr; the driver attaches it.
